@@ -405,8 +405,8 @@ func (h *Sources) InsertMatch(line *core.Line, cur *core.Cursor, usePos, fwd, re
 	// (down to the current input line), reinstore the main line buffer.
 	if !found {
 		if fwd {
-			h.hpos = -1
-			h.Undo()
+			// Back on the input line, as it was when we left it.
+			h.restoreLineBuffer()
 		}
 
 		return
